@@ -152,9 +152,18 @@ struct ConvTo {
 };
 
 /// Build a range over the given values with iterator kind `src` and hand (first, last) to f.
-template <class T, class F>
+template <class T, bool kWithConv = false, class F>
 inline void with_range_t(int src, const std::vector<int> &vals, F &&f) {
   typedef vf::El<T> E;
+  if constexpr (kWithConv) {
+    if (src == S_CONV) {
+      std::vector<ConvTo<T> > a;
+      for (int x : vals) a.push_back(ConvTo<T>{0x5151515151515151LL, x});
+      a.push_back(ConvTo<T>{0, -555});
+      f(static_cast<const ConvTo<T> *>(a.data()), static_cast<const ConvTo<T> *>(a.data() + vals.size()));
+      return;
+    }
+  }
   switch (src) {
     case S_PTR:
     case S_MOVE_PTR:
@@ -193,13 +202,6 @@ inline void with_range_t(int src, const std::vector<int> &vals, F &&f) {
       for (int x : vals) a.push_back(E::make(x));
       if (src == S_LIST) f(a.begin(), a.end());
       else f(std::make_move_iterator(a.begin()), std::make_move_iterator(a.end()));
-      break;
-    }
-    case S_CONV: {
-      std::vector<ConvTo<T> > a;
-      for (int x : vals) a.push_back(ConvTo<T>{0x5151515151515151LL, x});
-      a.push_back(ConvTo<T>{0, -555});
-      f(static_cast<const ConvTo<T> *>(a.data()), static_cast<const ConvTo<T> *>(a.data() + vals.size()));
       break;
     }
     case S_FWD: {
